@@ -194,10 +194,47 @@ def run(ctx):
         ev = events[b["i"] - 1]
         ctx.violation({"kind": "trace-event", "index": b["i"], "event": ev, "context": events[max(0, b["i"] - 6):b["i"] - 1] if ev["op"] == "Step" else []},
                       b["clause"], "value of the definition (see clause)", ev.get("res"))
+    repo_tests_traces(ctx)
     ctx.rule = ("TLC enumerates every (mesh pattern, permutation) state of the bounded universes with the occurrence set "
                 "by definition; each is replayed through every constructor that can express the shading and every "
                 "containment entry point; non-trivial = shaded pattern whose shading matters or that has an occurrence; "
                 "plus recorded mixed-list predicates and interleaved lazy iterators validated by Trace_C03")
+
+
+def repo_tests_traces(ctx):
+    """The repository's own tests run under a recorder (harness/recorder.py); every top-level contains / avoids /
+    Av.count / membership call they make (within TLC's size reach) is validated by Trace_RepoTests."""
+    import os
+    import subprocess
+    import sys
+    import tempfile
+    from harness.core import REPO, VERIF
+    fd, rec = tempfile.mkstemp(prefix="verif-rec-", suffix=".ndjson")
+    os.close(fd)
+    tests = ["tests/perm_sets", "tests/patterns/test_meshpatt.py", "tests/patterns/test_bivincular.py",
+             "tests/bisc/test_perm_properties.py", "tests/permutils/test_stats.py"]
+    env = dict(os.environ, VERIF_RECORD_FILE=rec, PYTHONDONTWRITEBYTECODE="1", PYTHONPATH=REPO + ":" + VERIF)
+    try:
+        p = subprocess.run([sys.executable, "-m", "pytest", "-q", "-p", "no:cacheprovider", "-p", "harness.recorder", "-c", os.devnull,
+                            "--rootdir", REPO] + [os.path.join(REPO, t) for t in tests],
+                           cwd=ctx.scratch, env=env, stdout=subprocess.PIPE, stderr=subprocess.STDOUT, text=True, timeout=1200)
+        with open(rec) as fh:
+            events = [json.loads(line) for line in fh if line.strip()]
+    finally:
+        os.unlink(rec)
+    if len(events) < 200:
+        raise tlc.MachineryFailure("recorder: only %d events from the repository tests\n%s" % (len(events), p.stdout[-800:]))
+    chunks = [events[i::6] for i in range(6)]
+    import concurrent.futures
+    with concurrent.futures.ThreadPoolExecutor(max_workers=6) as ex:
+        vs = list(ex.map(lambda ch: util.validate_trace(ctx, "Trace_RepoTests", ch, ntraces=1, timeout=3000), chunks))
+    for ch, v in zip(chunks, vs):
+        for b in v["verdict"]:
+            ev = ch[b["i"] - 1]
+            ctx.violation({"kind": "repo-test-call", "event": ev}, b["clause"], "value by definition", ev["res"])
+    ctx.case(n=len(events))
+    ctx.note("repo_test_calls_validated", len(events))
+    ctx.note("repo_tests_outcome", p.stdout.strip().splitlines()[-1][:120] if p.stdout.strip() else "")
 
 
 def replay(ctx, path):
